@@ -8,5 +8,6 @@ cd "$ROOT/harness" || exit 1
 mkdir -p "$ROOT/evidence/tmp" "$ROOT/evidence/replay"
 cargo build --offline --release -p checks --bins 2>&1 | tail -3
 cargo build --offline --release -p c01cap 2>&1 | tail -1
+cargo build --offline --release -p c18log 2>&1 | tail -1
 if [ -x "$ROOT/harness/extra/setup.sh" ]; then "$ROOT/harness/extra/setup.sh"; fi
 echo "setup done"
